@@ -156,6 +156,8 @@ def worker_main(argv):
             n = (total + nshards - 1) // nshards
             todo = [f"{pid}/{seed}/{shard}/{i}" for i in range(n)]
         tcap = getattr(mod, "T_THOROUGH", 1500) if tier == "thorough" else getattr(mod, "T_QUICK", 75)
+        if os.environ.get("XV_TCAP"):  # developer override (sweeps); never set by the registered commands
+            tcap = float(os.environ["XV_TCAP"])
         start = int(os.environ.get("XV_START", "0"))
         skip = set(x for x in os.environ.get("XV_SKIP", "").split(",") if x)
         tcap -= float(os.environ.get("XV_ELAPSED", "0"))
